@@ -65,6 +65,26 @@ func main() {
 				fmt.Printf("%s loop %d: head block %d (%s) %s:%d, %d blocks\n", k, l.Ordinal, l.Head.Index, l.Head.Comment, shortFile(p.Filename), p.Line, len(l.Body))
 			}
 		}
+	case "sweep":
+		P, err := LoadProgram(repoDir)
+		must(err)
+		S, err := loadSpecs()
+		must(err)
+		keys := os.Args[2:]
+		if len(keys) == 0 {
+			keys = sortedKeys(P.Funcs)
+		}
+		for _, k := range keys {
+			if strings.HasSuffix(k, ".init") {
+				continue
+			}
+			r := VerifyFunction(P, S, k)
+			if r.Err != "" {
+				fmt.Printf("ERR  %-50s %s\n", k, trunc(oneLine(r.Err), 200))
+				continue
+			}
+			fmt.Printf("ok   %-50s %d obligations\n", k, len(r.Obls))
+		}
 	case "verify":
 		fs := flag.NewFlagSet("verify", flag.ExitOnError)
 		timeout := fs.Int("t", 10, "solver timeout (s)")
